@@ -20,13 +20,17 @@ CLAIMED = {
     'C06': {
         'text': 'Deductive proof (Verus) on the verbatim body of Unifiable::unify, for all terms and all prior substitutions satisfying the input invariant: '
                 'a successful result keeps every earlier binding (extends), is again a well-formed substitution (ss_ok), equal terms unify with the identical substitution, '
-                'different constants fail, an unbound variable against a constant succeeds adding exactly that binding, every new binding is of a previously unbound variable, '
-                'and SOUNDNESS: on success the two terms are identical when resolved under the result, to every depth, with $_ as a wildcard (spec req/sound, lemmas for reflexivity, symmetry and stability under extension) - '
-                'for atoms, numbers, variables, complex terms and lists (a tail variable stands for the rest of the other list), nested arbitrarily. PARTIAL: general completeness (success whenever a unifier exists) and general minimality are not under proof; '
-                'they are covered by a BOUNDED comparison with a reference unifier (labelled bounded in the evidence, never counted as proved).',
-        'note': 'Trusted: derived PartialEq/Clone (T1), vstd + Rc<T>: PartialEq axiom (T2), rewrite rules R2/R3/R6/R7 (T4). Termination of unify is not proved. Float/float inequality is an exec f64 comparison (unspecified in Verus).',
+                'different constants fail, an unbound variable against a constant succeeds adding exactly that binding, every new binding is of a previously unbound variable; '
+                'SOUNDNESS: on success the two terms are identical when resolved under the result, to every depth, with $_ as a wildcard (spec req/sound) - '
+                'for atoms, numbers, variables, complex terms and lists (a tail variable stands for the rest of the other list), nested arbitrarily; '
+                'COMPLETENESS and MOST-GENERALITY (clause #mgu, spec/mgu.rs): for every assignment of finite value trees to the variables that respects the prior bindings and gives both terms the same value, '
+                'unify succeeds and the assignment also respects the resulting substitution - so failure is reported only when no unifier extending the prior bindings exists, and every unifier is an instance of the result '
+                '(it binds no more than an MGU does). The completeness clause is stated for terms and substitutions without `$_` (C09), function terms (C13) and NaN; occurs-check pairs have no finite solution and fall outside it, as in the statement. '
+                'A bounded comparison with a reference unifier (labelled bounded, never counted) runs in addition.',
+        'note': 'Trusted: derived PartialEq/Clone (T1), vstd + Rc<T>: PartialEq axiom (T2), rewrite rules R2/R3/R6/R7 (T4), f64 comparison is a function of its operands (T6). Termination of unify is not proved. '
+                'Soundness and completeness are proved in two formalisms (resolved terms to every depth; finite value trees) that are not connected by a proved theorem.',
         'technique': 'contract-based deductive verification (Verus) of extracted real code',
-        'design_ref': 'DESIGN.md 5/C06',
+        'design_ref': 'DESIGN.md 5/C06 and 8.11',
     },
     'C08': {
         'text': 'Deductive proof (Verus): acyclicity of variable-to-variable chains is a pre/postcondition of the verbatim unify (every exit, including both loops and the recursive calls), '
